@@ -98,8 +98,62 @@ def same_as_nth_at(F, adt, f, const):
         return n_
 
     cnode = ('const', {'k': 'const', 'ty': 'usize', 'tk': 'uint', 'val': const})
-    a = _map_tree(expanded(f), simp)
-    b = _map_tree(prov.subst(expanded(nth), {3: cnode}), simp)
+
+    def fold(n_):
+        """constant folding of the few unsigned operations a clamp is made of"""
+        if n_[0] == 'call' and n_[1].get('name') in ('saturating_sub', 'min', 'max') and len(n_[2]) == 2:
+            ca, cb = prov.const_val(prov.strip(n_[2][0])), prov.const_val(prov.strip(n_[2][1]))
+            if ca is not None and cb is not None and ca.isdigit() and cb.isdigit():
+                va, vb = int(ca), int(cb)
+                r_ = {'saturating_sub': max(va - vb, 0), 'min': min(va, vb), 'max': max(va, vb)}[n_[1]['name']]
+                return ('const', {'k': 'const', 'ty': 'usize', 'tk': 'uint', 'val': str(r_)})
+        return simp(n_)
+
+    def special(n_):
+        """a private helper called with a constant argument: if every path through it yields the same constant (an unsigned `!(0 < r)` meaning r == 0 on
+        that path), the call is that constant"""
+        if n_[0] != 'call' or not n_[1].get('local') or n_[1].get('trait') or not any(prov.const_val(prov.strip(a_)) is not None for a_ in n_[2]):
+            return n_
+        h = F.fn(n_[1].get('path') or '')
+        if h is None or len(h.blocks) > 30:
+            return n_
+        sp = arms.specialized_paths(h, n_[2])
+        if not sp:
+            return n_
+        vals = set()
+        for rest, val in sp:
+            env = {}
+            for c, lab in rest:
+                c = prov.strip(c, names={'likely', 'unlikely'})
+                if c[0] == 'binop' and c[1] in ('Lt', 'Gt', 'Le', 'Eq', 'Ne'):
+                    l_, r_ = prov.strip(c[2]), prov.strip(c[3])
+                    zero_l, zero_r = prov.const_val(l_) == '0', prov.const_val(r_) == '0'
+                    is_zero = (c[1] == 'Lt' and zero_l and lab == 'false') or (c[1] == 'Gt' and zero_r and lab == 'false') or \
+                              (c[1] == 'Le' and zero_r and lab == 'true') or (c[1] == 'Eq' and (zero_l or zero_r) and lab == 'true') or \
+                              (c[1] == 'Ne' and (zero_l or zero_r) and lab == 'false')
+                    if is_zero:
+                        env[prov.show(r_ if zero_l else l_, maxdepth=12)] = True
+            z = ('const', {'k': 'const', 'ty': 'usize', 'tk': 'uint', 'val': '0'})
+            v2 = _map_tree(val, lambda m_: z if m_[0] != 'const' and prov.show(m_, maxdepth=12) in env else m_)
+            v2 = _map_tree(v2, fold)
+            cv = prov.const_val(prov.strip(v2))
+            if cv is None:
+                return n_
+            vals.add(cv)
+        if len(vals) == 1:
+            return ('const', {'k': 'const', 'ty': 'usize', 'tk': 'uint', 'val': vals.pop()})
+        return n_
+
+    def pipeline(g, params=None):
+        rv = prov.prov_of(g).return_value()
+        if params:
+            rv = prov.subst(rv, params)
+        rv = _map_tree(rv, special)
+        rv = prov.inline_all(F, rv, depth=2, _seen=(g.path,), only=lambda f_: not f_.get('trait') and (f_.get('impl_adt') or '') == adt and f_.get('name') not in ('nth', 'next', 'last', 'new'))
+        rv = _map_tree(rv, special)
+        return _map_tree(combin.expand(F, rv), simp)
+    a = pipeline(f)
+    b = pipeline(nth, {3: cnode})
     sa, sb = prov.show(a, maxdepth=40), prov.show(b, maxdepth=40)
     # closures are named after the function they are written in
     import re as _re
@@ -122,6 +176,17 @@ def r1(ctx, F):
             good = rv[0] == 'call' and rv[1].get('name') == 'nth' and rv[1].get('impl_adt') == adt and len(rv[2]) == 3 and \
                 as_param_path(rv[2][0]) == (1, ()) and as_param_path(rv[2][1]) == (2, ()) and prov.const_val(rv[2][2]) == const
             ncalls = sum(1 for _ in f.calls())
+            if not good and name == 'last':
+                # `last` may also name the last index itself: nth(state, self.len() - 1) (saturating), possibly through a private helper
+                rv2 = prov.strip(prov.inline_all(F, rv, depth=2, _seen=(f.path,), only=lambda f_: not f_.get('trait') and f_.get('name') not in ('nth', 'len', 'next')), names=set())
+                if rv2[0] == 'call' and rv2[1].get('name') == 'nth' and rv2[1].get('impl_adt') == adt and len(rv2[2]) == 3 and \
+                        as_param_path(rv2[2][0]) == (1, ()) and as_param_path(rv2[2][1]) == (2, ()):
+                    x = prov.strip(rv2[2][2], names=set())
+                    if x[0] == 'call' and x[1].get('name') in ('saturating_sub',) and len(x[2]) == 2 and prov.const_val(prov.strip(x[2][1])) == '1':
+                        l_ = prov.strip(x[2][0], names=set())
+                        if l_[0] == 'call' and l_[1].get('name') == 'len' and (l_[1].get('impl_adt') or '') == adt and as_param_path(l_[2][0]) == (1, ()):
+                            ctx.ok('C15-R1', '%s::%s' % (short, name), 'last(state) = self.nth(state, self.len() - 1): the last remaining index', f.where())
+                            continue
             if not (good and ncalls == 1) and adt == GP and arms.arm_return_values(f)[1]:
                 # the wrapper may also dispatch straight to its payload's next / last (each of which is nth(0) / nth(usize::MAX), judged above)
                 if wrapper_arms(ctx, F, 'C15-R1', short, name, f, gp_adt) == len(MODES):
@@ -254,6 +319,70 @@ def run(ctx):
     ctx.not_decided('nth(n) == n+1 next calls; len()/size_hint() == number of values still to come; None after exhaustion without panic')
 
 
+_LEN_EXTRA = {}
+
+
+def len_value(F, adt, ln):
+    """value tree of len(), with every field that only the constructor fills replaced by what the constructor puts there — expressed in the calculator's
+    own fields again (`n_total: if count.is_empty() { 0 } else { diff_objects.len() + 1 }` reads as that expression over self.count / self.diff_objects)"""
+    import fieldidx
+    rv = prov.prov_of(ln).return_value()
+    new = F.method(adt, 'new', inherent_only=True)
+    if new is None:
+        return rv
+    rvn = prov.prov_of(new).return_value()
+    lits = [x for x in prov.walk(rvn) if x[0] == 'agg' and x[2] == adt]
+    if len(lits) != 1:
+        return rv
+    lit = lits[0][4]
+    used = set()
+    for x in prov.walk(rv, limit=300):
+        pp = as_param_path(x, through_calls=False)
+        if x[0] == 'field' and pp is not None and pp[0] == 1 and len(pp[1]) == 1:
+            used.add(pp[1][0])
+    repl = {}
+    for g in used:
+        if g not in lit:
+            continue
+        if any(a['kind'] in ('assign', 'mutborrow') and a['fn'].path != new.path for a in fieldidx.accesses(F, adt, g)):
+            continue                                  # the calculator updates it while running (the position): not a constructor constant
+        tg = lit[g]
+        fty = next((f_['ty'].get('s') for f_ in F.adts[adt]['variants'][0]['fields'] if f_['name'] == g), '') if adt in F.adts else ''
+        if fty not in ('usize', 'u32', 'u64') or prov.strip(tg)[0] in ('param', 'const'):
+            continue                                  # only a derived count is read through
+        others = [(f, prov.strip(v, names={'clone'})) for f, v in lit.items() if f != g and prov.strip(v)[0] not in ('const', 'param')]
+        # whatever the constructor looked at to compute it counts as consulted by len() (conditions of the constructor and of a private helper)
+        Pn = prov.prov_of(new)
+        seen_fields = set()
+        cond_trees = [tg]
+        for bi, b in enumerate(new.blocks):
+            if b['t']['k'] == 'switch' and not b.get('cleanup'):
+                cond_trees.append(arms.switch_info(new, bi)['cond'])
+        for ct in cond_trees:
+            for y in prov.walk(ct, limit=400):
+                for f, vf in others:
+                    if y == vf:
+                        seen_fields.add(f)
+        _LEN_EXTRA.setdefault(adt, set()).update(seen_fields)
+        tg = prov.inline_all(F, tg, depth=2, _seen=(new.path,), only=lambda f_: not f_.get('trait') and f_.get('is_const', True) is not False and
+                             (f_.get('path') or '').startswith(adt.rsplit('::', 1)[0]))
+
+        def back(n_, others=others):
+            for f, vf in others:
+                if n_ == vf:
+                    return ('field', ('param', 1), f)
+            return n_
+        repl[g] = _map_tree(tg, back)
+    if not repl:
+        return rv
+
+    def fwd(n_):
+        if n_[0] == 'field' and n_[1] == ('param', 1) and n_[2] in repl:
+            return repl[n_[2]]
+        return n_
+    return _map_tree(rv, fwd)
+
+
 # ---- R4 / R5: the custom len() and nth() of the four mode iterators against next()
 def r4_r5(ctx, F):
     import combin
@@ -279,7 +408,7 @@ def r4_r5(ctx, F):
                         pp = as_param_path(c[2][0])
                         if pp is not None and pp[0] == 1 and pp[1]:
                             empties.add(pp[1][0])
-        lrv = prov.prov_of(ln).return_value()
+        lrv = len_value(F, adt, ln)
         reads = set()
         for nn in prov.walk(lrv, limit=300):
             pp = as_param_path(nn)
@@ -293,6 +422,7 @@ def r4_r5(ctx, F):
                     pp = as_param_path(nn)
                     if pp is not None and pp[0] == 1 and pp[1] and nn[0] == 'field':
                         reads.add(pp[1][0])
+        reads |= _LEN_EXTRA.get(adt, set())
         n4 += 1
         missing = sorted(empties - reads)
         ctx.require(not missing, 'C15-R4', '%s:len-empty' % mode,
@@ -540,7 +670,7 @@ def r9(ctx, F):
         ln = F.method(adt, 'len', trait='std::iter::ExactSizeIterator')
         if not (nxt and nth and ln):
             continue                                  # reported by R4
-        lrv = prov.prov_of(ln).return_value()
+        lrv = len_value(F, adt, ln)
         M = idxf = None
         for alt in (lrv[1] if lrv[0] == 'phi' else [lrv]):
             a = prov.strip(alt, names=set())
@@ -555,6 +685,10 @@ def r9(ctx, F):
         if M is None:
             ctx.violation('C15-R9', '%s:len-shape' % mode, '%s::len is not `<end> - self.<position>`: %s' % (adt, prov.show(lrv, maxdepth=4)), ln.where())
             continue
+        import inline
+        nth0 = nth
+        same_mod = lambda h: not h.impl_trait and h.kind != 'Closure' and h.path.startswith(adt.rsplit('::', 1)[0]) and len(h.blocks) < 60
+        nth = inline.inlined(F, nth0, depth=2, force=same_mod, stop=lambda h: not same_mod(h))      # `let Some(take) = self.skip_count(n) else { drain }`
         P = prov.prov_of(nth)
         # overshoot branch: blocks that know `n >= len()`
         over = set()
@@ -563,6 +697,11 @@ def r9(ctx, F):
                 continue
             for c, lab in arms.bool_facts(nth, bi):
                 c = prov.strip(c, names={'likely', 'unlikely'})
+                if c[0] == 'discr' and lab in ('None', 'Some'):
+                    # `(n < len).then(..)` / `.then_some(..)`: None iff the comparison is false
+                    inner_ = prov.strip(c[1], names=set())
+                    if inner_[0] == 'call' and inner_[1].get('name') in ('then', 'then_some') and inner_[2]:
+                        c, lab = prov.strip(inner_[2][0], names={'likely', 'unlikely'}), ('false' if lab == 'None' else 'true')
                 if c[0] != 'binop' or c[1] not in ('Ge', 'Gt', 'Lt', 'Le'):
                     continue
                 sides = [prov.strip(x, names=set()) for x in (c[2], c[3])]
@@ -573,10 +712,16 @@ def r9(ctx, F):
                 if ge:
                     over.add(bi)
         if not over:
-            ctx.violation('C15-R9', '%s:overshoot' % mode, '%s::nth has no branch for n >= len()' % adt, nth.where())
+            ctx.violation('C15-R9', '%s:overshoot' % mode, '%s::nth has no branch for n >= len()' % adt, nth0.where())
             continue
         n += 1
-        drains = [bi for bi, t in nth.calls() if bi in over and t['func'].get('name') == 'next' and (t['func'].get('impl_adt') or t['func'].get('path') or '').find('GradualDifficulty') >= 0]
+        def _is_own_next(t):
+            f = t['func']
+            if f.get('name') != 'next':
+                return False
+            txt = ' '.join([f.get('impl_adt') or '', f.get('path') or ''] + list(f.get('targs') or []) + list(f.get('dargs') or []))
+            return 'GradualDifficulty' in txt            # Self::next, or <&mut Self as Iterator>::next behind by_ref()
+        drains = [bi for bi, t in nth.calls() if bi in over and _is_own_next(t)]
         if drains:
             ctx.ok('C15-R9', '%s:overshoot' % mode, '%s::nth drains with next() when n >= len()' % adt, nth.where())
             continue
@@ -696,7 +841,7 @@ def r10(ctx, F):
         if ln is None:
             continue
         idxf = None
-        lrv = prov.prov_of(ln).return_value()
+        lrv = len_value(F, adt, ln)
         for x in prov.walk(lrv, limit=200):
             if x[0] == 'binop' and x[1] in ('SubWithOverflow', 'Sub'):
                 pp = as_param_path(x[3], through_calls=False)
